@@ -7,7 +7,11 @@ Lemma hbh_option_adv buffer pos : wf buffer -> (1 <= len buffer)%nat ->
   forall pos', hbh_option buffer pos = Ok pos' -> (pos < pos')%nat.
 Proof.
   intros Hw H1. unfold hbh_option. rewrite idx_ok by lia. cbn [bind].
-  repeat sif; repeat sstep;
+  repeat first
+    [ match goal with |- context [Nat.ltb (len buffer) ?k] => destruct (Nat.ltb_spec (len buffer) k) end
+    | rewrite idx_ok by lia; cbn [bind]
+    | rewrite sl_ok by (unfold wf in Hw; lia); cbn [bind]
+    | sif ];
     (split; [sdone | intros pos' E; first [discriminate | apply Ok_inj in E; lia]]).
 Qed.
 
@@ -22,7 +26,8 @@ Proof.
   assert (Hwb : wf buffer) by (unfold buffer; slen).
   destruct (hbh_option_adv buffer pos Hwb ltac:(unfold buffer; cbn [len]; lia)) as [Hs Hadv].
   apply safe_bind; [exact Hs|]. intros pos' E. apply Hadv in E.
-  destruct (Nat.leb_spec (len data) pos'); [sdone|]. apply IH; [assumption|lia|lia].
+  destruct (Nat.ltb_spec (len data) pos'); [sdone|].
+  destruct (Nat.eqb_spec pos' (len data)); [sdone|]. apply IH; [assumption|lia|lia].
 Qed.
 
 Theorem hbh_parse_total p : wf p ->
